@@ -222,7 +222,7 @@ func structuralEdits(o *original, rng *rand.Rand) []edit {
 		// whole stanza replaced by validly made material
 		reg = fmt.Sprintf("s%d", i)
 		if sym := o.mix[i]; !isUnknown(sym) {
-			p := keys.P(symParty[sym])
+			p := partiesOf(sym)[0]
 			add("sub-foreign", reg, fmt.Sprintf("stanza %d replaced by the stanza for the same recipient of another valid file", i),
 				with(i, func(s *refage.Stanza) { *s = cloneStanza(o.sibStanzas[i]) }), o.mac, true)
 			add("sub-foreign+mac-foreign", reg, fmt.Sprintf("stanza %d and the MAC replaced by those of another valid file for the same recipients", i),
